@@ -517,12 +517,90 @@ func analyse(fd *ast.FuncDecl, mf *MethodFact) {
 			}
 		}
 	}
+	// handed: parameters of reference type (slice, map, pointer) and locals that alias (part of) the receiver or of a
+	// parameter (`x, ok := r.ex.([]string)`, `x := r.field`): storage that belongs to the caller or to the instance.
+	// A store through one of them (element, field, dereference) is a write like one through the receiver itself.
+	handed := map[types.Object]bool{}
+	isRef := func(t types.Type) bool {
+		if t == nil {
+			return false
+		}
+		switch t.Underlying().(type) {
+		case *types.Slice, *types.Map, *types.Pointer:
+			return true
+		}
+		return false
+	}
+	if fd.Type.Params != nil {
+		for _, p := range fd.Type.Params.List {
+			for _, n := range p.Names {
+				if obj := info.Defs[n]; obj != nil && isRef(obj.Type()) {
+					handed[obj] = true
+				}
+			}
+		}
+	}
+	rootObj := func(e ast.Expr) (types.Object, bool) {
+		deep := false
+		for {
+			switch v := e.(type) {
+			case *ast.Ident:
+				if o := info.Uses[v]; o != nil {
+					return o, deep
+				}
+				return info.Defs[v], deep
+			case *ast.SelectorExpr:
+				e = v.X
+			case *ast.StarExpr:
+				e = v.X
+			case *ast.ParenExpr:
+				e = v.X
+			case *ast.IndexExpr:
+				e = v.X
+			case *ast.SliceExpr:
+				e = v.X
+			case *ast.TypeAssertExpr:
+				e = v.X
+			default:
+				return nil, false
+			}
+			deep = true
+		}
+	}
+	aliasesHanded := func(e ast.Expr) bool {
+		switch e.(type) {
+		case *ast.TypeAssertExpr, *ast.SelectorExpr, *ast.IndexExpr, *ast.SliceExpr, *ast.StarExpr, *ast.Ident, *ast.ParenExpr:
+		default:
+			return false // a call, a literal, an operation: a fresh value
+		}
+		if !isRef(info.TypeOf(e)) {
+			if ta, ok := e.(*ast.TypeAssertExpr); !ok || ta.Type == nil || !isRef(info.TypeOf(ta.Type)) {
+				return false
+			}
+		}
+		o, _ := rootObj(e)
+		return o != nil && (handed[o] || rootedAtRecv(e))
+	}
 	ast.Inspect(fd.Body, func(n ast.Node) bool {
 		switch v := n.(type) {
 		case *ast.AssignStmt:
 			for _, l := range v.Lhs {
 				if rootedAtGlobal(l) {
 					mf.Writes = true
+				}
+				if _, isID := l.(*ast.Ident); !isID {
+					if o, deep := rootObj(l); deep && o != nil && handed[o] {
+						mf.Writes = true
+					}
+				}
+			}
+			if len(v.Rhs) == 1 && len(v.Lhs) >= 1 {
+				if id, ok := v.Lhs[0].(*ast.Ident); ok && aliasesHanded(v.Rhs[0]) {
+					if o := info.Defs[id]; o != nil {
+						handed[o] = true
+					} else if o := info.Uses[id]; o != nil {
+						handed[o] = true
+					}
 				}
 			}
 			// cfg, _ := r.config()  /  sc, _ := r.config()
@@ -548,6 +626,11 @@ func analyse(fd *ast.FuncDecl, mf *MethodFact) {
 		case *ast.IncDecStmt:
 			if _, isID := v.X.(*ast.Ident); !isID && rootedAtRecv(v.X) {
 				mf.Writes = true
+			}
+			if _, isID := v.X.(*ast.Ident); !isID {
+				if o, deep := rootObj(v.X); deep && o != nil && handed[o] {
+					mf.Writes = true
+				}
 			}
 			if rootedAtGlobal(v.X) {
 				mf.Writes = true
